@@ -1,14 +1,17 @@
 import JunoModel.C14.ProofsRun
+import JunoModel.C14.ProofsCodec
 /-!
 C14 — property theorems (statements only; helper lemmas are in `Proofs*.lean`).
 Every theorem in this module is an obligation listed in evidence/C14.json with its axioms.
 
 Vocabulary (all in `Model.lean`). A history is a list of `Op`: `set h e` (SetWALEntry),
 `del h` (DeleteWALEntries), `flush ft` / `close ft` (with an injected failure `ft`: none, the
-append fails and the tail repair succeeds, the repair fails too, the watermark write fails),
-`reopen` (NewTendermintWALStore), `crash c i mask` (the process dies while operation `c` is at its
+append fails and the tail repair succeeds, the repair fails too, `manager.Create` fails, the
+watermark write fails, the directory sync after the watermark rename fails, the rotation fails,
+the unlink of the k-th obsolete log fails),
+`reopen` (NewTendermintWALStore), `crash c i mask alt` (the process dies while operation `c` is at its
 `i`-th durable state; the unlinks chosen by `mask`, not yet made durable by a directory sync, are
-undone). `Sys.init.run ops` is the state after the history: the store, the directory, and two
+undone, and with `alt` an undurable watermark rename too). `Sys.init.run ops` is the state after the history: the store, the directory, and two
 ghost lists of API calls — `acked`: the calls followed by a flush that committed (or brought back
 by a recovery), `calls`: the calls since. `images c` are all crash images of the operation `c`
 started now, each with the flag "the batch in flight is completely on disk". `recover img` is
@@ -37,8 +40,8 @@ theorem recover_exact (ops : List Op) (c : COp) (img : Disk) (infl : Bool)
     ∃ out, recover img = .ok out ∧
       LoadSpec out (if infl = true then (Sys.init.run ops).acked ++ (Sys.init.run ops).calls
                     else (Sys.init.run ops).acked) := by
-  obtain ⟨b, mask, hb, rfl⟩ := mem_images h
-  exact ((inv_run ops).bases c (b, infl) hb).image_good mask
+  obtain ⟨b, mask, alt, hb, rfl⟩ := mem_images h
+  exact ((inv_run ops).bases c (b, infl) hb).image_good mask alt
 
 /-- The running store shows the same: between any two operations, LoadAllEntries of the open
 store is exactly the acknowledged history (pending records are invisible until flushed). -/
@@ -63,49 +66,54 @@ theorem reopen_never_fails (ops : List Op) : ((Sys.init.run ops).step .reopen).2
   · simp
   · rw [ho]; simp
 
-/-- **A failed flush is not durable and does not break the log.** If the append (write or sync)
-of a flush fails and the tail repair succeeds, the flush reports an error, nothing of the batch is
-acknowledged or visible, the pending records are kept, every crash image from then on recovers
-to the history acknowledged before — and the very next flush succeeds. (A store whose earlier
-tail repair failed refuses to create writers on purpose: `wal_writer.go` `repairRequired`.) -/
-theorem failed_flush_not_durable (ops : List Op)
+/-- **A failed flush is not durable and does not break the log.** Whatever failure is injected
+(the append fails with or without a successful tail repair, `manager.Create` fails, …): if a
+flush reports that the batch is not committed, then nothing of the batch is acknowledged or
+visible, the pending records are kept, every crash image from then on recovers to the history
+acknowledged before — and, unless the tail repair failed as well (the store then refuses new
+writers on purpose: `wal_writer.go` `repairRequired`), the very next flush succeeds. -/
+theorem failed_flush_not_durable (ops : List Op) (ft : Fault)
     (ha : (Sys.init.run ops).alive = true) (hc : (Sys.init.run ops).st.closed = false)
-    (hr : (Sys.init.run ops).st.repairRequired = false) (hp : (Sys.init.run ops).st.pending.isEmpty = false) :
-    ((Sys.init.run ops).step (.flush .append)).2 = .errNotCommitted ∧
-    ((Sys.init.run ops).step (.flush .append)).1.acked = (Sys.init.run ops).acked ∧
-    ((Sys.init.run ops).step (.flush .append)).1.calls = (Sys.init.run ops).calls ∧
-    ((Sys.init.run ops).step (.flush .append)).1.st.pending = (Sys.init.run ops).st.pending ∧
-    ((Sys.init.run ops).step (.flush .append)).1.st.load = (Sys.init.run ops).st.load ∧
-    (∀ img infl, (img, infl) ∈ ((Sys.init.run ops).step (.flush .append)).1.images .idle →
+    (ho : ((Sys.init.run ops).step (.flush ft)).2 = .errNotCommitted) :
+    ((Sys.init.run ops).step (.flush ft)).1.acked = (Sys.init.run ops).acked ∧
+    ((Sys.init.run ops).step (.flush ft)).1.calls = (Sys.init.run ops).calls ∧
+    ((Sys.init.run ops).step (.flush ft)).1.st.pending = (Sys.init.run ops).st.pending ∧
+    ((Sys.init.run ops).step (.flush ft)).1.st.load = (Sys.init.run ops).st.load ∧
+    ((Sys.init.run ops).step (.flush ft)).1.removed = (Sys.init.run ops).removed ∧
+    (∀ img infl, (img, infl) ∈ ((Sys.init.run ops).step (.flush ft)).1.images .idle →
       ∃ out, recover img = .ok out ∧ LoadSpec out (Sys.init.run ops).acked) ∧
-    (((Sys.init.run ops).step (.flush .append)).1.step (.flush .none)).2 = .ok := by
-  obtain ⟨o, hi, hpd, hcl, hrr, _⟩ := flush_append_fault (Sys.init.run ops).st (Sys.init.run ops).disk hc hr hp
-  have hstep : ((Sys.init.run ops).step (.flush .append)).1 = (Sys.init.run (ops ++ [.flush .append])) := by
+    (((Sys.init.run ops).step (.flush ft)).1.st.repairRequired = false →
+      (((Sys.init.run ops).step (.flush ft)).1.step (.flush .none)).2 = .ok) := by
+  have o : (flushLocked (Sys.init.run ops).st (Sys.init.run ops).disk ft).out = .errNotCommitted := by
+    simpa only [Sys.step, ha, Bool.not_true, Bool.false_eq_true, ↓reduceIte] using ho
+  obtain ⟨hi, hpd, hcl, hrm⟩ := flush_not_committed (Sys.init.run ops).st (Sys.init.run ops).disk ft hc o
+  have hstep : ((Sys.init.run ops).step (.flush ft)).1 = (Sys.init.run (ops ++ [.flush ft])) := by
     rw [run_append]; rfl
-  have e1 : ((Sys.init.run ops).step (.flush .append)).2 = .errNotCommitted := by
-    simp only [Sys.step, ha, Bool.not_true, Bool.false_eq_true, ↓reduceIte]; exact o
-  have e2 : ((Sys.init.run ops).step (.flush .append)).1.acked = (Sys.init.run ops).acked := by
+  have e2 : ((Sys.init.run ops).step (.flush ft)).1.acked = (Sys.init.run ops).acked := by
     simp only [Sys.step, ha, Bool.not_true, Bool.false_eq_true, ↓reduceIte, o, Outcome.committed]
-  have e3 : ((Sys.init.run ops).step (.flush .append)).1.calls = (Sys.init.run ops).calls := by
+  have e3 : ((Sys.init.run ops).step (.flush ft)).1.calls = (Sys.init.run ops).calls := by
     simp only [Sys.step, ha, Bool.not_true, Bool.false_eq_true, ↓reduceIte, o, Outcome.committed]
-  have e4 : ((Sys.init.run ops).step (.flush .append)).1.st = (flushLocked (Sys.init.run ops).st (Sys.init.run ops).disk .append).st := by
+  have e4 : ((Sys.init.run ops).step (.flush ft)).1.st = (flushLocked (Sys.init.run ops).st (Sys.init.run ops).disk ft).st := by
     simp only [Sys.step, ha, Bool.not_true, Bool.false_eq_true, ↓reduceIte]
-  have e5 : ((Sys.init.run ops).step (.flush .append)).1.alive = true := by
+  have e5 : ((Sys.init.run ops).step (.flush ft)).1.alive = true := by
     simp only [Sys.step, ha, Bool.not_true, Bool.false_eq_true, ↓reduceIte]
-  refine ⟨e1, e2, e3, by rw [e4]; exact hpd, by rw [e4]; unfold Store.load; rw [hi], ?_, ?_⟩
+  have e6 : ((Sys.init.run ops).step (.flush ft)).1.removed = (Sys.init.run ops).removed := by
+    simp only [Sys.step, ha, Bool.not_true, Bool.false_eq_true, ↓reduceIte, hrm, List.append_nil]
+  refine ⟨e2, e3, by rw [e4]; exact hpd, by rw [e4]; unfold Store.load; rw [hi], e6, ?_, ?_⟩
   · intro img infl hm
     rw [hstep] at hm
     obtain ⟨out, r1, r2⟩ := recover_exact _ .idle img infl hm
     have hfl : infl = false := by
-      obtain ⟨b, _, hb, _⟩ := mem_images hm
+      obtain ⟨b, _, _, hb, _⟩ := mem_images hm
       simp only [Sys.bases, List.mem_singleton, Prod.mk.injEq] at hb
       exact hb.2
     subst hfl
     rw [← hstep, e2] at r2
     exact ⟨out, r1, by simpa using r2⟩
-  · generalize ((Sys.init.run ops).step (.flush .append)).1 = sys' at *
+  · intro hrr
+    generalize ((Sys.init.run ops).step (.flush ft)).1 = sys' at *
     simp only [Sys.step, e5, Bool.not_true, Bool.false_eq_true, ↓reduceIte]
-    exact flush_none_ok _ _ (by rw [e4]; exact hcl) (by rw [e4]; exact hrr)
+    exact flush_none_ok _ _ (by rw [e4]; exact hcl) hrr
 
 /-- **The cleanup never removes a log that is still needed.** Every log file the store has
 unlinked, at any point of any history, holds only records of heights that the acknowledged
@@ -165,6 +173,32 @@ theorem height_zero_never_stored (s : Store) (hc : s.closed = false) (e : Nat) :
     simp only [Option.getD_some] at this
     exact absurd this (hs.nonempty (0, v) (AMap.mem_of_get? _ _ _ hg))
 
+/-! ### The record payload codec (`codec.go`, `record.go`), byte level -/
+
+/-- Decoding inverts encoding, for every record whose fields fit their Go types (`uint64`
+limbs, a one-byte step). -/
+theorem codec_roundtrip (p : Codec.Payload) (h : p.WF) : Codec.decode (Codec.encode p) = some p :=
+  Codec.decode_encode p h
+
+/-- The decoder accepts exact encodings only: a byte string that decodes to a record *is* the
+encoding of that record — no truncated, extended or otherwise altered payload decodes. -/
+theorem codec_canonical (bs : List UInt8) (p : Codec.Payload) (h : Codec.decode bs = some p) :
+    Codec.encode p = bs ∧ p.WF :=
+  Codec.decode_canonical bs p h
+
+/-- Under the framing hypothesis — every payload the log reader hands over is one that was
+written (Pebble's chunk checksum; tested exhaustively on small records, not proved) — the decoder
+never yields a record that was not written. -/
+theorem codec_no_foreign_record (written : List Codec.Payload) (hw : ∀ q ∈ written, q.WF)
+    (read : List (List UInt8)) (framing : ∀ b ∈ read, ∃ q ∈ written, b = Codec.encode q) :
+    ∀ b ∈ read, ∀ p, Codec.decode b = some p → p ∈ written :=
+  Codec.no_foreign_record written hw read framing
+
+example : Codec.decode (Codec.encode (.timeout 2 7 3)) = some (.timeout 2 7 3) := by decide
+example : Codec.decode [1, 1, 7, 0, 0, 0, 0, 0, 0] = none := by decide          -- truncated
+example : Codec.decode [1, 1, 7, 0, 0, 0, 0, 0, 0, 0, 0] = none := by decide    -- trailing byte
+example : Codec.decode [2, 7, 0, 0, 0, 0, 0, 0, 0] = some (.prune 7) := by decide
+
 /-! ### Non-vacuity: concrete histories that meet the hypotheses -/
 
 /-- a history with two flushes, a prune and a restart -/
@@ -173,15 +207,18 @@ def demo : List Op :=
    .set 3 14]
 
 -- the flush in flight has 5 durable states here; at the last one the batch is on disk
-example : ((Sys.init.run demo).images (.flush .none)).length = 5 := by decide
+example : ((Sys.init.run demo).images (.flush .none)).length = 10 := by decide
 example : (Sys.init.run demo).acked = [.entry 1 10, .entry 2 11, .prune 1, .entry 2 12, .entry 3 13] := by decide
 example : (Sys.init.run demo).st.load = [(2, [11, 12]), (3, [13])] := by decide
-example : (((Sys.init.run demo).images (.flush .none)).map (fun p => (recover p.1).toOption)) =
+example : (((Sys.init.run demo).bases (.flush .none)).map (fun p => (recover p.1).toOption)) =
     [some [(2, [11, 12]), (3, [13])], some [(2, [11, 12]), (3, [13])], some [(2, [11, 12]), (3, [13])],
      some [(2, [11, 12]), (3, [13])], some [(2, [11, 12]), (3, [13, 14])]] := by decide
--- hypotheses of `failed_flush_not_durable` are satisfiable
+-- hypotheses of `failed_flush_not_durable` are satisfiable, with and without a successful repair
 example : (Sys.init.run demo).alive = true ∧ (Sys.init.run demo).st.closed = false ∧
-    (Sys.init.run demo).st.repairRequired = false ∧ (Sys.init.run demo).st.pending.isEmpty = false := by decide
+    ((Sys.init.run demo).step (.flush .append)).2 = .errNotCommitted ∧
+    ((Sys.init.run demo).step (.flush .append)).1.st.repairRequired = false ∧
+    ((Sys.init.run demo).step (.flush .appendNoRepair)).2 = .errNotCommitted ∧
+    ((Sys.init.run demo).step (.flush .appendNoRepair)).1.st.repairRequired = true := by decide
 -- a directory in which an unlinked log came back: the watermark keeps its entries dead
 example : (recover { files := [{ num := 1, batches := [[.entry 1 10, .prune 1]] }, { num := 3, batches := [[.entry 2 11]] }],
                      wm := some 1 }).toOption = some [(2, [11])] := by decide
